@@ -110,8 +110,10 @@ class SharedBufferAPI : public BufferAPI<ArrayT>
     bool readOnly() const override
      { return !_orig.writable(); }
 
+    //  Only the address is taken here; whether the consumer may write is
+    // reported through readOnly(), so a read-only array can be exported.
     void *buffer() override
-     { return static_cast<void *> (&_orig.direct_index(0)); }
+     { return static_cast<void *> (&_orig.unchecked_direct_index(0)); }
 
   private:
 
@@ -129,11 +131,17 @@ class CopyBufferAPI : public BufferAPI<ArrayT>
 
     using BufferAPI<ArrayT>::elementSize;
 
+    //  The FixedArray copy constructor shares the data, so make a real
+    // (contiguous, writable) copy of the elements for the consumer.
     explicit
     CopyBufferAPI (ArrayT &a)
-     : BufferAPI<ArrayT> (a.len(), a.stride()),
-              _copy (a)
-    {}
+     : BufferAPI<ArrayT> (a.len(), 1),
+              _copy (a.len(), PyImath::UNINITIALIZED)
+    {
+        const ArrayT &src = a;
+        for (Py_ssize_t i = 0; i < src.len(); ++i)
+            _copy.unchecked_direct_index(i) = src.direct_index(i);
+    }
 
     virtual ~CopyBufferAPI() = default;
 
@@ -151,7 +159,7 @@ class CopyBufferAPI : public BufferAPI<ArrayT>
      { return false; }
 
     void *buffer() override
-     { return static_cast<void *> (&_copy.direct_index(0)); }
+     { return static_cast<void *> (&_copy.unchecked_direct_index(0)); }
 
   private:
 
